@@ -131,3 +131,46 @@ Example C10_recover_resumes_caller_nonvacuous :
                 u_code := [IRecover; IPrint 1; IRunDefers; IReturn RNone] |} ] in
   run_program 100 p = [0; 5; 7]%Z.
 Proof. vm_compute. reflexivity. Qed.
+
+(* ------------------------------------------------------------------ deferred calls that fail *)
+(* The full statement (every registered deferred call is started exactly once whatever the others do) ... *)
+Definition C10_defers_statement : Prop := forall child g c,
+  fst (fst (run_defers_op child g c)) = fold_left (one_call child c) (rev (c_defers c)) g.
+
+(* ... does not hold for the VM: invokeDeferredStatements returns at the first deferred call that fails, the
+   deferred calls registered before it are never started (known finding failing-defer-skips-rest).
+   C10_defers_rev_once is the statement under the guard child_ok (no deferred call fails); C10_defers_spent
+   (never twice) holds without it. *)
+Definition failing_child (g : glob) (c : ctx) : glob * option err :=
+  match c_code c with
+  | CDefer d => (set_out g (d_target d :: g_out g),
+                 match d_target d with VInt 2%Z => Some EDivZero | _ => None end)
+  | _ => (g, None)
+  end.
+
+Theorem C10_failing_defer_skips_rest_refuted : ~ C10_defers_statement.
+Proof.
+  intros H.
+  specialize (H failing_child init_glob
+    {| c_code := CUnit 1; c_pc := 3; c_stack := []; c_fp := 0; c_syms := 0; c_trys := [];
+       c_defers := [{| d_target := VInt 1; d_args := []; d_syms := None |};
+                    {| d_target := VInt 2; d_args := []; d_syms := None |}];
+       c_running := true; c_panic := None; c_result := None; c_dsyms := None; c_debug := false |}).
+  vm_compute in H. discriminate H.
+Qed.
+
+(* panic path: the deferred call registered LAST recovers; the two registered before it still run, in
+   reverse order, and the caller resumes (C10_panic_defers_rev_once folds over ALL of rev (c_defers c),
+   independently of the panic state the calls leave) *)
+Example C10_recover_in_last_registered_defer :
+  let p := [ {| u_lit := false; u_nret := 0;
+                u_code := [IPushFun 1; ICall 0; IPushV (VInt 7); IPrint 1] |};
+             {| u_lit := false; u_nret := 0;
+                u_code := [IDeferStart true; IPushFun 3; IDefer 0; IDeferStart true; IPushFun 4; IDefer 0;
+                           IDeferStart true; IPushFun 2; IDefer 0;
+                           IPushV (VInt 5); IUserPanic; IRunDefers; IReturn RNone] |};
+             {| u_lit := true; u_nret := 0; u_code := [IRecover; IPrint 1; IRunDefers; IReturn RNone] |};
+             {| u_lit := true; u_nret := 0; u_code := [IPushV (VInt 1); IPrint 1; IRunDefers; IReturn RNone] |};
+             {| u_lit := true; u_nret := 0; u_code := [IPushV (VInt 2); IPrint 1; IRunDefers; IReturn RNone] |} ] in
+  run_program 200 p = [0; 5; 2; 1; 7]%Z.
+Proof. vm_compute. reflexivity. Qed.
